@@ -1,7 +1,7 @@
 ------------------------------ MODULE Opaque ------------------------------
 (* C09 — opaque tags stay opaque.
 
-   A case is (tag, ctx, opener spelling, closer spelling, body):
+   A case is (tag, ctx, opener spelling, closer spelling, pair, where, body):
      tag   in {nowiki, pre, math, source, syntaxhighlight, timeline}
      body  a sequence of lexemes (atoms of WikiTokens.tla) that contains neither the tag's own
            closer nor the reserved byte 0x7f (atoms DEL, UNIQ)
@@ -28,6 +28,7 @@ EXTENDS Naturals, Sequences, FiniteSets, TLC, Json
 CONSTANTS BodyAlphabet,   \* "opaque" | "structural"
           MaxBody,        \* bodies of 0..MaxBody lexemes (tags spelled in lower case)
           SpellBody,      \* bodies of 0..SpellBody lexemes for the other spellings of the tags
+          PairBody,       \* bodies of 0..PairBody lexemes for documents with a second region
           EmitFrom        \* print cases with Len(body) >= EmitFrom
 
 WT == INSTANCE WikiTokens WITH Alphabet <- "structural", MaxLen <- 0, MaxNest <- 40, EmitFrom <- 1,
@@ -100,20 +101,64 @@ Decoded(tag, b) == CASE tag = "nowiki" -> DecodeEntities(b)
 Restored(tag, b) == IF tag = "nowiki" THEN b ELSE <<"OPEN">> \o b \o <<"CLOSE">>
 
 -----------------------------------------------------------------------------
-VARIABLES tag, ctx, ospell, cspell, body
-ovars == <<tag, ctx, ospell, cspell, body>>
+\* A second protected region elsewhere in the same document (its own paragraph, before or after
+\* the first) and how it relates to the first one:
+\*   same           the identical region once more
+\*   otherTag       the same body under another opaque tag
+\*   wrappedNowiki  the first region's complete text (opener + body + closer) as the body of a <nowiki>
+\*   wrappedPre     the same as the body of a <pre> (for a nowiki this is the nested-looking
+\*                  <pre><nowiki>..</nowiki></pre>, which the <pre> hook unwraps)
+\*   otherBody      the same tag around a different body
+\* Both regions keep their own denotation; the document shows them in order.
+PairKinds == {"none", "same", "otherTag", "wrappedNowiki", "wrappedPre", "otherBody"}
+Wheres == {"before", "after"}
+OtherTag(t) == CASE t = "nowiki" -> "math" [] t = "pre" -> "source" [] t = "math" -> "nowiki" [] t = "source" -> "pre"
+                 [] t = "syntaxhighlight" -> "timeline" [] t = "timeline" -> "math"
+Whole(t, b) == <<WT!OpenTag(t)>> \o b \o <<WT!CloseTag(t)>>
+Has(b, x) == \E i \in 1..Len(b) : b[i] = x
+SecondTag(t, p) == CASE p \in {"same", "otherBody"} -> t [] p = "otherTag" -> OtherTag(t)
+                     [] p = "wrappedNowiki" -> "nowiki" [] p = "wrappedPre" -> "pre" [] OTHER -> "-"
+SecondBody(t, b, p) == CASE p \in {"same", "otherTag"} -> b
+                         [] p \in {"wrappedNowiki", "wrappedPre"} -> Whole(t, b)
+                         [] p = "otherBody" -> (IF b = <<"1">> THEN <<"a">> ELSE <<"1">>)
+                         [] OTHER -> <<>>
+\* the second region must itself be inside the quantifier (no own closer inside its body)
+PairOK(t, b, p) == CASE p = "otherTag" -> ~Has(b, WT!CloseTag(OtherTag(t)))
+                     [] p = "wrappedNowiki" -> t # "nowiki" /\ ~Has(b, "</nowiki>")
+                     [] p = "wrappedPre" -> t # "pre" /\ ~Has(b, "</pre>")
+                     [] OTHER -> TRUE
+Second(t, b, p) == IF p = "none" THEN [tag |-> "-", body |-> <<>>, kind |-> "-", decoded |-> <<>>]
+                   ELSE [tag |-> SecondTag(t, p), body |-> SecondBody(t, b, p), kind |-> Kind(SecondTag(t, p)),
+                         decoded |-> Decoded(SecondTag(t, p), SecondBody(t, b, p))]
 
-Bound == IF ospell = "lower" /\ cspell = "lower" THEN MaxBody ELSE SpellBody
-Init == tag \in Tags /\ ctx \in Contexts /\ ospell \in OpenSpellings /\ cspell \in CloseSpellings /\ body = <<>>
+VARIABLES tag, ctx, ospell, cspell, pair, where, body
+ovars == <<tag, ctx, ospell, cspell, pair, where, body>>
+
+Bound == IF pair # "none" THEN PairBody
+         ELSE IF ospell = "lower" /\ cspell = "lower" THEN MaxBody ELSE SpellBody
+Init == /\ tag \in Tags /\ ctx \in Contexts /\ ospell \in OpenSpellings /\ cspell \in CloseSpellings
+        /\ pair \in PairKinds /\ where \in Wheres
+        /\ (pair # "none") => (ospell = "lower" /\ cspell = "lower")
+        /\ (pair = "none") => where = "after"
+        /\ body = <<>>
+        /\ PairOK(tag, body, pair)
 Extend == /\ Len(body) < Bound
-          /\ \E x \in BodyLex(tag) : body' = Append(body, x)
-          /\ UNCHANGED <<tag, ctx, ospell, cspell>>
+          /\ \E x \in BodyLex(tag) : body' = Append(body, x) /\ PairOK(tag, Append(body, x), pair)
+          /\ UNCHANGED <<tag, ctx, ospell, cspell, pair, where>>
 Next == Extend
 Spec == Init /\ [][Next]_ovars
 
 -----------------------------------------------------------------------------
 TypeOK == /\ tag \in Tags /\ ctx \in Contexts /\ ospell \in OpenSpellings /\ cspell \in CloseSpellings
+          /\ pair \in PairKinds /\ where \in Wheres
           /\ body \in Seq(BodyLex(tag)) /\ Len(body) <= Bound
+\* the second region is inside the quantifier too, and its denotation obeys the same laws
+PairLaws == (pair # "none") =>
+  LET s == Second(tag, body, pair) IN
+  /\ s.tag \in Tags
+  /\ \A i \in 1..Len(s.body) : s.body[i] # WT!CloseTag(s.tag) /\ s.body[i] \notin Reserved
+  /\ (s.tag \notin {"nowiki", "pre"}) => s.decoded = s.body
+  /\ (pair = "same") => s.decoded = Decoded(tag, body)
 \* the quantifier of C09: no own closer, no 0x7f
 InDomain == \A i \in 1..Len(body) : body[i] # WT!CloseTag(tag) /\ body[i] \notin Reserved
 \* laws of the oracle
@@ -129,5 +174,6 @@ AlphabetOK == (OpaqueBody \ {"ESC_CLOSER"}) \subseteq WT!Structural /\ {WT!OpenT
 
 EmitCase == (Len(body) >= EmitFrom) =>
   PrintT("@@" \o ToJson([tag |-> tag, ctx |-> ctx, ospell |-> ospell, cspell |-> cspell, body |-> body, kind |-> Kind(tag),
-                         decoded |-> Decoded(tag, body), restored |-> Restored(tag, body)]))
+                         decoded |-> Decoded(tag, body), restored |-> Restored(tag, body),
+                         pair |-> pair, where |-> where, second |-> Second(tag, body, pair)]))
 =============================================================================
